@@ -591,4 +591,45 @@ def r8_worker_contract(a, tier):
     return rep
 
 
-RULES = [r1_draw_submit, r2_pop_yield, r3_snapshot, r4_same_worker, r5_capture, r6_fresh_run_state, r7_dispatch, r8_worker_contract]
+def r9_collect_until_empty(a, tier):
+    rep = RuleReport(
+        'C18.R9',
+        'the collecting loop gives up on pending work only when the run is stopped: in executor_pmap, every `break` / `return` that leaves '
+        'the loop over the map of pending futures (`while futures:`) lies under a test of the stop event (`stop.is_set()`); any other '
+        'exit (a timeout handler, an error path) ends the generator with futures still pending - their results are never yielded and the '
+        'remaining payloads are never submitted',
+        floor=1,
+    )
+    fn = a.p.func(PMAP)
+    pvar = _pending_var(fn)
+    pm = a.resolver.parents(fn)
+    whiles = [n for n in walk_no_defs(fn.node) if isinstance(n, ast.While) and any(isinstance(x, ast.Name) for x in ast.walk(n.test))
+              and not (isinstance(n.test, ast.Constant))]
+    pending = [w for w in whiles if any(isinstance(x, ast.Name) and x.id == pvar for x in ast.walk(w.test))]
+    if not pending:
+        raise AnalysisError('C18.R9: the loop over the pending futures (`while futures:`) was not found in executor_pmap')
+    for w in pending:
+        for n in ast.walk(w):
+            if not isinstance(n, (ast.Break, ast.Return)):
+                continue
+            cur, nearest_loop, under_stop = n, None, False
+            while id(cur) in pm and cur is not w:
+                par = pm[id(cur)]
+                if isinstance(par, (ast.For, ast.While)) and nearest_loop is None and cur in getattr(par, 'body', []) + getattr(par, 'orelse', []):
+                    nearest_loop = par
+                if isinstance(par, ast.If) and cur in par.body and any(isinstance(c, ast.Call) and dotted(c.func).endswith('is_set') for c in ast.walk(par.test)) \
+                        and not any(isinstance(u, ast.UnaryOp) and isinstance(u.op, ast.Not) for u in ast.walk(par.test)):
+                    under_stop = True
+                cur = par
+            leaves = isinstance(n, ast.Return) or nearest_loop is None or nearest_loop is w
+            if not leaves:
+                continue
+            rep.add({'exit': f'{type(n).__name__.lower()} at line {n.lineno}', 'leaves_the_pending_loop': True, 'under_a_stop_test': under_stop})
+            if not under_stop:
+                rep.fail(fn.qualname, f'pending-loop-exit:{type(n).__name__.lower()}', f'the `{type(n).__name__.lower()}` at {fn.module.relpath}:{n.lineno} leaves the loop over the pending '
+                         f'futures without the stop event having been seen set: the generator ends while tasks are still running or waiting, and their payloads get no result', f'{fn.module.relpath}:{n.lineno}')
+    rep.add({'pending_loops': len(pending)})
+    return rep
+
+
+RULES = [r1_draw_submit, r2_pop_yield, r3_snapshot, r4_same_worker, r5_capture, r6_fresh_run_state, r7_dispatch, r8_worker_contract, r9_collect_until_empty]
